@@ -21,11 +21,15 @@
 
    kind 2 — server session (serveDialRequest on scripted streams, recording dialer)
      2 RPM PerPeerRPM DialDataRPM MaxConc  step*
-     step = stimulus nev event^nev
+     step = stimulus nev event^nev npeers inprog_0 .. inprog_{npeers-1}
+            (inprog_i = the limiter's inProgressReqs entry of peer i after the step; compared by
+             conform_case only, never looked at by the monitor)
      stimulus = 1 sid p obs t good n k (aid cls ip)^k   a stream of peer p, observed IP id obs
                                           (0 = none), arrives at time t; good = 1: its first
                                           message is a DialRequest with the k listed entries;
                                           n = NumBytes of the DialDataRequest the server sent (0 if none)
+              | 5 sid p obs t             a stream arrives, the client does not send its request yet
+              | 6 sid t good n k (aid cls ip)^k   the first message of such a stream arrives at time t
               | 2 sid mk L D              the client writes one message (as in kind 1)
               | 3 sid                     the client closes its side
               | 4 t                       the clock is advanced past every open stream's deadline
@@ -188,6 +192,17 @@ Definition dmon_stimulus (l : list mstream) (o : sop) (evs : list sev) : list ms
   | SReq sid p obs t good addrs n =>
       if in_flight sid l then (match evs with [] => inl l | _ => inr CL_SHAPE end)
       else inl (l ++ [mkM sid p obs addrs None 0])
+  | SOpen sid p obs t =>
+      if in_flight sid l then (match evs with [] => inl l | _ => inr CL_SHAPE end)
+      else inl (l ++ [mkM sid p obs [] None 0])
+  | SLate sid t good addrs n =>
+      (* the request of a stream that had not sent one yet *)
+      inl (map (fun s => if m_sid s =? sid
+                         then match m_addrs s, m_asked s with
+                              | [], None => mkM (m_sid s) (m_peer s) (m_obs s) addrs None (m_sent s)
+                              | _, _ => s
+                              end
+                         else s) l)
   | SData sid m =>
       inl (map (fun s => if m_sid s =? sid
                          then mkM (m_sid s) (m_peer s) (m_obs s) (m_addrs s) (m_asked s) (m_sent s + msg_data m)
@@ -259,6 +274,24 @@ Definition smon_step (c : rl_cfg) (m : smon) (o : sop) (evs : list sev) : smon +
             else inr CL_DIALDATA
           else inl (smon_ends (mkSmon r1 (sm_fl m ++ [(sid, p)])) evs)
       end
+  | SOpen sid p obs t =>
+      let r := sm_r m in
+      if t <? rm_last r then inr CL_CLOCK else
+      if existsb (fun e => fst e =? sid) (sm_fl m) || existsb (is_reject sid) evs
+      then inl (mkSmon (mkRmon (rm_acc r) (rm_dd r) (rm_fl r) t) (sm_fl m))
+      else
+        let d := accept_ok c r p t in
+        if negb (d =? 0) then inr d else
+        inl (smon_ends (mkSmon (mkRmon (rm_acc r ++ [(p, t)]) (rm_dd r) (upd (rm_fl r) p (rm_fl r p + 1)) t)
+                               (sm_fl m ++ [(sid, p)])) evs)
+  | SLate sid t good addrs n =>
+      let r := sm_r m in
+      if t <? rm_last r then inr CL_CLOCK else
+      if existsb (is_ask sid) evs then
+        if count_if (fresh t) (rm_dd r) + 1 <=? DialDataRPM c
+        then inl (smon_ends (mkSmon (mkRmon (rm_acc r) (rm_dd r ++ [t]) (rm_fl r) t) (sm_fl m)) evs)
+        else inr CL_DIALDATA
+      else inl (smon_ends (mkSmon (mkRmon (rm_acc r) (rm_dd r) (rm_fl r) t) (sm_fl m)) evs)
   | STimeout t =>
       let r := sm_r m in
       if t <? rm_last r then inr CL_CLOCK else
@@ -361,13 +394,20 @@ Definition decode_stimulus (l : list Z) : option (sop * list Z) :=
       | Some (as_, rest) => Some (SReq sid p obs t (zbool good) as_ n, rest)
       | None => None
       end
+  | 5 :: sid :: p :: obs :: t :: r => Some (SOpen sid p obs t, r)
+  | 6 :: sid :: t :: good :: n :: k :: r =>
+      if k <? 0 then None else
+      match decode_addrs (Z.to_nat k) r with
+      | Some (as_, rest) => Some (SLate sid t (zbool good) as_ n, rest)
+      | None => None
+      end
   | 2 :: sid :: mk :: L :: D :: r => Some (SData sid (decode_msg mk L D), r)
   | 3 :: sid :: r => Some (SEof sid, r)
   | 4 :: t :: r => Some (STimeout t, r)
   | _ => None
   end.
 
-Fixpoint decode_strace (l : list Z) (fuel : nat) : option (list (sop * list sev)) :=
+Fixpoint decode_strace (l : list Z) (fuel : nat) : option (list ((sop * list sev) * list Z)) :=
   match fuel with
   | O => None
   | S f =>
@@ -378,8 +418,10 @@ Fixpoint decode_strace (l : list Z) (fuel : nat) : option (list (sop * list sev)
       | Some (o, nev :: r) =>
           if nev <? 0 then None else
           match decode_events (Z.to_nat nev) r with
-          | Some (evs, rest) => option_map (cons (o, evs)) (decode_strace rest f)
-          | None => None
+          | Some (evs, np :: rest) =>
+              if (np <? 0) || (zlen rest <? np) then None else
+              option_map (cons ((o, evs), ztake np rest)) (decode_strace (zdrop np rest) f)
+          | _ => None
           end
       | _ => None
       end
@@ -423,13 +465,20 @@ Definition sev_z (e : sev) : list Z :=
 
 Definition sevs_eqb (a b : list sev) : bool := zlist_eqb (flat_map sev_z a) (flat_map sev_z b).
 
-Fixpoint conform_s (c : rl_cfg) (s : sstate) (i : Z) (tr : list (sop * list sev)) : list Z :=
+Fixpoint inprog_list (l : rl) (i : Z) (k : nat) : list Z :=
+  match k with O => [] | S k' => rl_inprog l i :: inprog_list l (i + 1) k' end.
+
+(* events of each step, and the limiter's inProgressReqs of every peer after it *)
+Fixpoint conform_s (c : rl_cfg) (s : sstate) (i : Z) (tr : list ((sop * list sev) * list Z)) : list Z :=
   match tr with
   | [] => []
-  | (o, evs) :: r =>
+  | ((o, evs), ip) :: r =>
       let '(s', mevs) := s_step c s o in
-      if sevs_eqb mevs evs then conform_s c s' (i + 1) r
-      else ERR_MISMATCH :: i :: flat_map sev_z mevs ++ [-1] ++ flat_map sev_z evs
+      if negb (sevs_eqb mevs evs)
+      then ERR_MISMATCH :: i :: flat_map sev_z mevs ++ [-1] ++ flat_map sev_z evs
+      else let mip := inprog_list (s_rl s') 0 (length ip) in
+           if zlist_eqb mip ip then conform_s c s' (i + 1) r
+           else ERR_MISMATCH :: i :: -2 :: mip ++ [-1] ++ ip
   end.
 
 (* length of a well-formed DialDataResponse message carrying D >= 1 bytes:
@@ -468,7 +517,7 @@ Definition conform_case (l : list Z) : list Z :=
   | 2 :: a :: b :: c :: d :: r =>
       match decode_strace r (S (length r)) with
       | Some tr =>
-          if forallb (fun oe => match fst oe with SData _ m => msg_wf m | _ => true end) tr
+          if forallb (fun oe => match fst (fst oe) with SData _ m => msg_wf m | _ => true end) tr
           then conform_s (cfg_of a b c d) s_init 0 tr
           else [ERR_MALFORMED; 2]
       | None => [ERR_MALFORMED; 3]
@@ -491,7 +540,7 @@ Definition monitor_case (l : list Z) : list Z :=
       end
   | 2 :: a :: b :: c :: d :: r =>
       match decode_strace r (S (length r)) with
-      | Some tr => holds_session (cfg_of a b c d) tr
+      | Some tr => holds_session (cfg_of a b c d) (map fst tr)
       | None => [ERR_MALFORMED; 3]
       end
   | _ => [ERR_MALFORMED; 9]
